@@ -221,6 +221,7 @@ class RecManager(TransactionManager):
         cc = self._conditionally_called(mm)
         self.c10_derived = {id(b): [d for d in rd[b] if d in cc] for b in list(rd.keys())}
         self.c10_keep = [rd, cc]
+        self.c10_pre = {id(t._body) for t in self.transactions}  # transactions that exist before the merge
         return super()._simultaneous()
 
 
@@ -362,8 +363,10 @@ def _read_back(spec, top, tm, rec):
     # derived enables of merged transactions: site (merged transaction -> converted transaction) reads run(dep)
     en_reads = []
     derived = getattr(tm, "c10_derived", {})
+    pre = getattr(tm, "c10_pre", set())
     for sid, caller, callee in sites:
-        for d in derived.get(id(allb[callee]), []) if allb[caller] not in _user_bodies(top) else []:
+        merged = caller in tids and id(allb[caller]) not in pre  # a transaction created by `_simultaneous`
+        for d in derived.get(id(allb[callee]), []) if merged else []:
             if id(d) in bid:
                 en_reads.append([sid, bid[id(d)]])
     # declared user reads
@@ -383,12 +386,6 @@ def _read_back(spec, top, tm, rec):
         "names": [b.name for b in allb],
     }
     return g, anchors
-
-
-def _user_bodies(top) -> list:
-    if isinstance(top, LoopTop):
-        return list(top.body_of.values()) + [getattr(c, m)._body for c in top.libs.values() for m in ("read", "write", "peek", "clear") if hasattr(c, m)]
-    return list(top.bodies.values())
 
 
 def _declared(spec, top, bid, site_of_tuple, allb):
@@ -691,9 +688,122 @@ def _body_stmts(g: _G, used: set, in_method: bool, n_calls: int, depth: int, own
     return stmts
 
 
+def spec_data_ok(spec: dict) -> bool:
+    """the data rule, checked statically on a spec: the declared data flow between arguments, `data_in` and
+    `data_out` (including `data_in m <- argument of every call of m`) has no cycle, and an argument that is
+    inspected by `validate_arguments` does not depend on any `data_in`."""
+    alias = {p["alias"]: p["target"] for p in spec.get("provides", [])}
+    io = dict((n, (d["iw"], d["ow"])) for n, d in spec.get("methods", {}).items())
+    for lb in spec.get("libs", []):
+        for mth, wd in LIB_METHODS[lb["comp"]].items():
+            io[f"{lb['name']}.{mth}"] = wd
+
+    def res(r):
+        while r in alias:
+            r = alias[r]
+        return r
+
+    edges: dict = {}
+    site_target: dict = {}
+    validated_args = []
+    vset = set()
+
+    def add(x, y):
+        edges.setdefault(x, set()).add(y)
+
+    def collect_sites(stmts):
+        for s in stmts:
+            k = s["k"]
+            if k == "call":
+                site_target[s["sid"]] = res(s["ref"])
+            elif k in ("trans", "method"):
+                if k == "method" and s.get("validate"):
+                    vset.add(s["name"])
+                collect_sites(s["body"])
+            elif k == "if":
+                for a in s["alts"]:
+                    collect_sites(a)
+            elif k == "cond":
+                for b in s["branches"]:
+                    collect_sites(b["body"])
+
+    collect_sites(spec["items"])
+
+    def val_reads(node, v, owner):
+        if v[0] == "din" and owner is not None and io[owner][0] > 0:
+            add(node, ("in", owner))
+        elif v[0] == "res" and v[1] in site_target and io[site_target[v[1]]][1] > 0:
+            add(node, ("out", site_target[v[1]]))
+
+    def walk(stmts, owner):
+        for s in stmts:
+            k = s["k"]
+            if k == "call":
+                t = res(s["ref"])
+                if io[t][0] > 0:
+                    add(("in", t), ("arg", s["sid"]))
+                    val_reads(("arg", s["sid"]), s.get("arg", ["in"]), owner)
+                    if t in vset:
+                        validated_args.append(("arg", s["sid"]))
+            elif k == "method":
+                walk(s["body"], s["name"])
+                if io[s["name"]][1] > 0:
+                    val_reads(("out", s["name"]), s.get("out", ["const", 1]), s["name"])
+            elif k == "trans":
+                walk(s["body"], None)
+            elif k == "if":
+                for a in s["alts"]:
+                    walk(a, owner)
+            elif k == "cond":
+                for b in s["branches"]:
+                    walk(b["body"], owner)
+
+    walk(spec["items"], None)
+    for lb in spec.get("libs", []):
+        n = lb["name"]
+        if lb["comp"] == "Forwarder":
+            add(("out", f"{n}.read"), ("in", f"{n}.write"))
+            add(("out", f"{n}.peek"), ("in", f"{n}.write"))
+        elif lb["comp"] == "Connect":
+            add(("out", f"{n}.read"), ("in", f"{n}.write"))
+    state: dict = {}
+
+    def dfs(x):  # False on a cycle
+        state[x] = 1
+        for y in edges.get(x, ()):
+            if state.get(y) == 1 or (state.get(y) is None and not dfs(y)):
+                return False
+        state[x] = 2
+        return True
+
+    if not all(state.get(x) == 2 or dfs(x) for x in list(edges)):
+        return False
+    for a in validated_args:
+        seen = set()
+        stack = [a]
+        while stack:
+            x = stack.pop()
+            if x in seen:
+                continue
+            seen.add(x)
+            if x[0] == "in":
+                return False
+            stack.extend(edges.get(x, ()))
+    return True
+
+
 def gen_positive(rng: random.Random, P: Optional[dict] = None) -> dict:
     """a design obeying the documented rule: readiness is local, or reads the run of a body that was
-    declared `schedule_before` this one (directly) or that encloses it (nesting)."""
+    declared `schedule_before` this one (directly) or that encloses it (nesting); the data flow obeys
+    `spec_data_ok` (resampled otherwise)."""
+    for _ in range(20):
+        spec = _gen_positive(rng, P)
+        if spec_data_ok(spec):
+            return spec
+    raise RuntimeError("generator: no design with loop-free data flow in 20 tries")
+
+
+def _gen_positive(rng: random.Random, P: Optional[dict] = None) -> dict:
     g = _G(rng, P or {})
     g.io = {}
     g.plain = {}
